@@ -147,7 +147,12 @@ func main() {
 	explain := flag.String("explain", "", "re-evaluate the obligation recorded in this violation file")
 	ruleFlag := flag.String("rules", "", "debug: comma-separated rule ids to run instead of a property's")
 	dump := flag.Bool("dump", false, "debug: print every obligation")
+	mutDir := flag.String("mutants", "", "run the mutant catalogue in this directory against -repo (development / thorough tier)")
 	flag.Parse()
+
+	if *mutDir != "" {
+		os.Exit(mutantsMain(*mutDir, *repo, *prop))
+	}
 
 	if *explain != "" {
 		os.Exit(runExplain(*explain, *repo, *out))
@@ -194,6 +199,15 @@ func main() {
 		os.Exit(2)
 	}
 	for _, id := range props {
+		var mut []mutResult
+		if *tier == "thorough" && os.Getenv("ERGOCHECK_NO_MUTANTS") == "" {
+			only := map[string]bool{}
+			for _, r := range propertyRules[id] {
+				only[r] = true
+			}
+			mut, _ = runMutants(filepath.Join(*out, "mutants"), *repo, only, id)
+		}
+		run.mutants = mut
 		if report(run, id, *tier, *out, known, *dump, time.Since(start).Seconds()) {
 			code = 1
 		}
@@ -207,6 +221,7 @@ type runResult struct {
 	progInfo map[string]any
 	configs  []string
 	broken   []string // checker-level failures (positive control did not fire, floor not met)
+	mutants  []mutResult
 }
 
 // analyse loads the tree under every configuration of the tier and runs the needed rules once.
@@ -413,6 +428,21 @@ func report(run *runResult, id, tier, out string, known []knownFinding, dump boo
 			"cmd/ergo is the only client of internal/ergo",
 		},
 		WallS: wall, Violations: nViol,
+	}
+	if run.mutants != nil {
+		det, app := 0, 0
+		for _, m := range run.mutants {
+			if m.Status == "detected" || m.Status == "missed" {
+				app++
+			}
+			if m.Status == "detected" {
+				det++
+			}
+		}
+		ev.Coverage["mutant_sensitivity"] = map[string]any{
+			"note":       "recorded, never gating: catalogue edits applied to scratch copies of the current tree; a mutant is detected when an obligation key that is discharged (or absent) on the unmodified tree becomes violated/undecided",
+			"applicable": app, "detected": det, "catalogue_entries_for_this_property": len(run.mutants), "results": run.mutants,
+		}
 	}
 	data, _ := json.MarshalIndent(ev, "", " ")
 	if err := os.WriteFile(filepath.Join(out, "evidence", id+".json"), data, 0o644); err != nil {
